@@ -122,8 +122,12 @@ macro_rules! c03_make_unmake {
             #[kani::stub(crate::attack::bishop, crate::verif_anyboard::stub_bishop)]
             fn $name() {
                 let b0 = ab::any_board_side($color);
+                ab::assume_one_king_each(&b0);
                 ab::assume_ep_consistent(&b0);
                 ab::assume_castling_normal(&b0);
+                // (the side not to move is not in check: no pseudo-legal move captures a king, which
+                // is what makes "rights are lost exactly by king / rook moves and rook captures" exact)
+                ab::assume_opponent_king_safe(&b0);
                 let mv = if $kind == MoveKind::Null { Move::NULL } else { ab::any_move_of_kind($kind) };
                 let rm = rs::rmove(mv);
                 if $kind != MoveKind::Null { vk::assume(rs::ref_pseudo(&b0.r, rm)); }
